@@ -70,3 +70,21 @@ SPECS['C18'] = dict(
     quick=dict(workers=16, cases=8000, size=100, timeout=900),
     thorough=dict(workers=16, cases=500000, size=100, timeout=3600),
 )
+
+SPECS['C15'] = dict(
+    kind='native', drivers=['p_c15.cpp'], shims=['sut_scale'], with_lib=True,
+    level='exploration', exhaustive_part=True,
+    technique='complete enumeration of (scale, day) pairs with round-trip, successor, month-length and weekday oracles',
+    level_text=('The finite domain (10 Hijri scales x every Gregorian day 1901-2099, plus every Hijri month of the Hijri years 1317-1528) is enumerated '
+                'completely on every run; the oracles are the inverse conversion, the successor relation, the civil weekday and the civil day distance.'),
+    level_note='trusts oracle/civil.hpp for Gregorian day numbers/weekdays; Hijri side is judged only by internal consistency (no external Hijri table)',
+    rule=('forward: every Gregorian day 1901-01-01..2099-12-31 -> each of the 10 Hijri scales: if accepted the image must be a date of that calendar '
+          '(1<=m<=12, 1<=d<=ndim), convert back to the same day, carry the civil weekday, and the next Gregorian day must map to the successor date; '
+          'reverse: every month of Hijri years 1317..1528: every day 1..ndim converts to consecutive Gregorian days and back, ndim equals the distance '
+          'between the first days of adjacent months, months a table does not cover (ndim 0) must be rejected. non-trivial = an accepted conversion '
+          '(a rejected one only checks rejection); distinct = (direction, scale, date) triples, enumerated without repetition'),
+    assumptions=['coverage of the two table-based calendars is read through echs_scale_ndim()!=0, not hard-coded',
+                 'agreement with an external Hijri authority is not part of the statement and not asserted'],
+    quick=dict(workers=16, cases=0, size=100, timeout=900),
+    thorough=dict(workers=16, cases=0, size=100, timeout=1800),
+)
